@@ -25,7 +25,7 @@ ListGrid == [kind : {"KS"}, items : UpTo2({<<29, 32>>, <<23, 65>>, <<4588, 0>>, 
 \* "small", or carries TLS_EMPTY_RENEGOTIATION_INFO_SCSV 0x00ff (which Go's parser turns into secureRenegotiationSupported,
 \* with or without a renegotiation_info extension next to it), TLS_FALLBACK_SCSV 0x5600, both, a GREASE value, a duplicate.
 Members == {"suites", "sni", "ocsp", "groups", "points", "ticket", "sigs", "sigscert", "reneg", "ems", "alpn", "sct", "versions",
-            "cookie", "shares", "pskmodes", "earlydata", "quic", "sid"}
+            "cookie", "shares", "pskmodes", "earlydata", "quic", "sid", "psk"}
 Vals(m) == CASE m = "suites" -> {"small", "scsv", "fallback", "both", "grease", "dup"}
              [] m = "shares" -> {"absent", "small", "empty", "special"}
              [] m \in {"ticket", "reneg", "quic"} -> {"absent", "small", "empty"}
@@ -57,11 +57,14 @@ ExtOf(m, v) ==
                                      ELSE (IF v = "special" THEN U16(2570) \o Vec16(<<0>>) ELSE <<>>) \o U16(29) \o Vec16(Seq32(3))))
     [] m = "pskmodes" -> Ext(45, Vec8(<<1>>))
     [] m = "earlydata" -> Ext(42, <<>>)
+    \* pre_shared_key: two identities (label, obfuscated_ticket_age) and two 32-byte binders; always the last extension
+    [] m = "psk" -> Ext(41, Vec16(Vec16(<<80, 83, 75>>) \o <<0, 0, 3, 232>> \o Vec16(<<105, 100>>) \o <<0, 1, 0, 7>>)
+                            \o Vec16(Vec8(Seq32(5)) \o Vec8(Seq32(6))))
     [] m = "quic" -> Ext(57, IF v = "empty" THEN <<>> ELSE <<1, 2, 64, 100>>)
     [] OTHER -> <<>>
 \* order of Go's encoder (handshake_messages.go marshalMsg); any order is a valid ClientHello
 ExtOrder == <<"sni", "ocsp", "groups", "points", "ticket", "sigs", "sigscert", "reneg", "ems", "alpn", "sct", "versions",
-              "cookie", "shares", "earlydata", "pskmodes", "quic">>
+              "cookie", "shares", "earlydata", "pskmodes", "quic", "psk">>
 EncodeCH(f) ==
   LET exts == Flat([i \in DOMAIN ExtOrder |-> ExtOf(ExtOrder[i], f[ExtOrder[i]])])
       sid == IF f.sid = "absent" THEN <<>> ELSE Seq32(1)
